@@ -175,4 +175,69 @@ theorem blocks_run_cap (s : Bytes) (n lo fuel q : Nat) (out : Bytes) (ds : List 
       · exact Or.inl h3
       · exact Or.inr ⟨h3.1, by simpa [Array.append_assoc] using h3.2⟩
 
+/-! ### transporting the block structure to a modified buffer -/
+
+/-- `s'` has the same bytes as `s` at positions `lo ≤ i < hi`. -/
+def AgreeOn (s s' : Bytes) (lo hi : Nat) : Prop := ∀ i, lo ≤ i → i < hi → s'.getD i 0 = s.getD i 0
+
+theorem AgreeOn.mono {s s' : Bytes} {lo hi lo' hi' : Nat} (h : AgreeOn s s' lo hi) (h1 : lo ≤ lo') (h2 : hi' ≤ hi) :
+    AgreeOn s s' lo' hi' := fun i a b => h i (by omega) (by omega)
+
+theorem extract_eq_of_agree (s s' : Bytes) (a b : Nat) (h : AgreeOn s s' a b) (hs : b ≤ s.size) (hs' : b ≤ s'.size) :
+    s'.extract a b = s.extract a b := by
+  apply Array.ext
+  · simp [Array.size_extract]; omega
+  · intro i h1 h2
+    simp only [Array.size_extract] at h1 h2
+    have := h (a + i) (by omega) (by omega)
+    have e1 : a + i < s'.size := by omega
+    have e2 : a + i < s.size := by omega
+    rw [Array.getD_eq_getD_getElem?, Array.getD_eq_getD_getElem?] at this
+    simp only [Array.getElem?_eq_getElem e1, Array.getElem?_eq_getElem e2, Option.getD_some] at this
+    simp [Array.getElem_extract, this]
+
+theorem BlkAt.transport {s s' : Bytes} {q : Nat} {d : Bytes} {fin : Bool} (hb : BlkAt s q d fin)
+    (ha : AgreeOn s s' q (q + 5 + d.size)) (hs' : q + 5 + d.size ≤ s'.size) : BlkAt s' q d fin := by
+  have hf := hb.fits
+  refine ⟨?_, ?_, ?_, hb.le, hs', ?_⟩
+  · rw [ha q (by omega) (by omega)]; exact hb.hdr
+  · rw [ha (q + 1) (by omega) (by omega), ha (q + 2) (by omega) (by omega)]; exact hb.len
+  · rw [ha (q + 3) (by omega) (by omega), ha (q + 4) (by omega) (by omega)]; exact hb.nlen
+  · rw [extract_eq_of_agree s s' (q + 5) (q + 5 + d.size) (ha.mono (by omega) (by omega)) hf hs']
+    exact hb.data
+
+theorem endOf_mono (q : Nat) (ds : List Bytes) : q ≤ endOf q ds := by
+  have := endOf_ge q ds; omega
+
+theorem Run.transport {s s' : Bytes} {q : Nat} {ds : List Bytes} (hr : Run s q ds)
+    (ha : AgreeOn s s' q (endOf q ds)) (hs' : endOf q ds ≤ s'.size) : Run s' q ds := by
+  induction ds generalizing q with
+  | nil => trivial
+  | cons d ds ih =>
+    obtain ⟨hb, hr'⟩ := hr
+    simp only [endOf] at ha hs'
+    have hm := endOf_mono (q + 5 + d.size) ds
+    exact ⟨hb.transport (ha.mono (by omega) hm) (by omega), ih hr' (ha.mono (by omega) (by omega)) hs'⟩
+
+theorem Run.append {s : Bytes} {q : Nat} {ds es : List Bytes} (h1 : Run s q ds) (h2 : Run s (endOf q ds) es) :
+    Run s q (ds ++ es) := by
+  induction ds generalizing q with
+  | nil => simpa [endOf] using h2
+  | cons d ds ih => exact ⟨h1.1, ih h1.2 (by simpa [endOf] using h2)⟩
+
+theorem endOf_append (q : Nat) (ds es : List Bytes) : endOf q (ds ++ es) = endOf (endOf q ds) es := by
+  induction ds generalizing q with
+  | nil => simp [endOf]
+  | cons d ds ih => simp [endOf, ih]
+
+theorem flat_append (ds es : List Bytes) : flat (ds ++ es) = flat ds ++ flat es := by
+  induction ds with
+  | nil => simp [flat]
+  | cons d ds ih => simp [flat, ih, Array.append_assoc]
+
+theorem flat_size_le_endOf (q : Nat) (ds : List Bytes) : q + (flat ds).size ≤ endOf q ds := by
+  induction ds generalizing q with
+  | nil => simp [flat, endOf]
+  | cons d ds ih => have := ih (q + 5 + d.size); simp [flat, endOf] at *; omega
+
 end WuffsVerif.Flate.Spec
